@@ -329,6 +329,9 @@ func (Engine) Run(t *tape.Tape, o eng.Opts) *eng.Result {
 
 	// Fault accounting (fired, not configured).
 	for _, q := range all {
+		if q.Staged && q.Body != "" {
+			res.Probes["requests_with_staged_body"]++
+		}
 		for _, e := range q.Events {
 			switch e.K {
 			case world.EvCancel:
